@@ -196,7 +196,8 @@ def s_ite(c, a, b):
         return mk_bool(z3.If(ct, as_bool_term(a), as_bool_term(b)))
     if is_seq(a) and is_seq(b) and seq_kind(a) == seq_kind(b):
         ea = seq_elem(a) if length(a) != 0 else seq_elem(b)
-        return SSeq(z3.If(ct, seq_term_as(a, ea), seq_term_as(b, ea)), seq_kind(a), ea)
+        r = join_rng(seq_rng(a), seq_rng(b))
+        return SSeq(z3.If(ct, seq_term_as(a, ea), seq_term_as(b, ea)), seq_kind(a), ea, rng=None if r == "empty" else r)
     return SPy(z3.If(ct, to_pyval(a), to_pyval(b)))
 
 
@@ -278,7 +279,8 @@ def seq_concat(a, b):
     ea, eb = seq_elem(a), seq_elem(b)
     if ea != eb:
         raise Unsupported("concatenation with different element kinds: %r + %r" % (a, b))
-    return SSeq(z3.simplify(z3.Concat(seq_term(a), seq_term(b))), ka, ea)
+    r = join_rng(seq_rng(a), seq_rng(b))
+    return SSeq(z3.simplify(z3.Concat(seq_term(a), seq_term(b))), ka, ea, rng=None if r == "empty" else r)
 
 
 def arith(op, a, b):
@@ -378,6 +380,28 @@ def slice_bounds(lo, hi, n):
     return z3.simplify(s), z3.simplify(ln)
 
 
+def seq_rng(v):
+    if isinstance(v, SSeq):
+        return v.rng
+    if isinstance(v, bytes):
+        return (0, 255)
+    if isinstance(v, tuple) and v and all(isinstance(x, int) and not isinstance(x, bool) for x in v):
+        return (min(v), max(v))
+    if isinstance(v, tuple) and not v:
+        return "empty"
+    return None
+
+
+def join_rng(a, b):
+    if a == "empty":
+        return b
+    if b == "empty":
+        return a
+    if a is None or b is None:
+        return None
+    return (min(a[0], b[0]), max(a[1], b[1]))
+
+
 def seq_slice(v, lo, hi):
     if isinstance(v, (bytes, tuple)) and (lo is None or isinstance(lo, int)) and (hi is None or isinstance(hi, int)):
         return v[lo:hi]
@@ -385,4 +409,5 @@ def seq_slice(v, lo, hi):
     n = length(v)
     s, ln = slice_bounds(lo, hi, n)
     kind, elem = seq_kind(v), seq_elem(v)
-    return SSeq(z3.simplify(z3.Extract(t, s, ln)), kind, elem)
+    r = seq_rng(v)
+    return SSeq(z3.simplify(z3.Extract(t, s, ln)), kind, elem, rng=None if r == "empty" else r)
